@@ -400,7 +400,7 @@ AlgNext(x) ==
     \/ Dot(x) \/ DotAxes(x) \/ Bilinear(x)
     \/ IndexT(x) \/ IndexM(x) \/ ApplyMask(x)
     \/ Cat(x) \/ Cat3(x) \/ PadT(x) \/ PadM(x) \/ MProd(x) \/ MProdRep(x)
-    \/ \E op \in {"save_load", "clone_c", "detach", "to_dtype", "cpu", "numpy"} : Copies(op, x)
+    \/ \E op \in {"save_load", "clone_c", "detach", "to_dtype", "to_both", "to_pos", "to_device", "to_none", "cpu", "numpy"} : Copies(op, x)
     \/ LayerForward(x)
 
 Next == Fresh /\ AlgNext(case.x)
